@@ -255,4 +255,101 @@ example : (paginate exDoc 10).map (fun ps => ps.map (fun p =>
     some [[(false, 55, 0)], [(false, 20, 0), (true, 49, 6)], [(true, 49, 6)], [(true, 20, 6)]] := by
   decide +kernel
 
+/-! ### unbreakable blocks: what `_in_flow_layout` does with the fragment of a child (`firstPass`)
+
+`_in_flow_layout` compares the bottom of the child's *content box* (`content_box_y() + height`) and of its
+*border box* with `pageBottom − bottomSpace`. For a child that cannot be fragmented any further (a fixed
+`height`, an empty block with padding or border) this test is the only thing that keeps it inside the page. -/
+
+/-- **A kept child fits** (C03, "no unbreakable block ends below the bottom edge unless it is the first
+content"): when the first pass keeps the fragment of a child, either margins collapse through the child (it
+has no extent), or the child is the first content of an empty page, or both its content box and its border
+box end above `pageBottom − bottomSpace`. -/
+theorem firstPass_keep_fits (c : Ctx) (bs : Rat) (pienc : Bool) (posY : Rat) (r : LayoutResult) (f : Frag)
+    (posY' : Rat) (h : firstPass c bs pienc posY r = .keep (some f) posY') :
+    r.frag = some f ∧
+    (r.collapsingThrough = true ∨ pienc = true ∨
+      (c.overflowsPage bs (f.geo.contentBoxY + f.geo.h) = false ∧
+       c.overflowsPage bs (f.geo.borderBoxY + f.geo.borderHeight) = false)) := by
+  unfold firstPass at h
+  split at h
+  · cases h
+  · rename_i f0 hf0
+    split at h
+    · rename_i hthrough
+      simp only [FirstPass.keep.injEq, Option.some.injEq] at h
+      obtain ⟨rfl, _⟩ := h
+      exact ⟨hf0, Or.inl hthrough⟩
+    · dsimp only at h
+      cases hp : pienc with
+      | true => 
+        subst hp
+        simp only [Bool.not_true, Bool.false_and, Bool.false_eq_true, ↓reduceIte, FirstPass.keep.injEq,
+          Option.some.injEq] at h
+        exact ⟨by rw [hf0, h.1], Or.inr (Or.inl rfl)⟩
+      | false =>
+        subst hp
+        simp only [Bool.not_false, Bool.true_and] at h
+        split at h
+        · cases h
+        · rename_i hcontent
+          split at h
+          · cases h
+          · rename_i hborder
+            simp only [FirstPass.keep.injEq, Option.some.injEq] at h
+            obtain ⟨rfl, _⟩ := h
+            refine ⟨hf0, Or.inr (Or.inr ⟨?_, ?_⟩)⟩
+            · simpa using hcontent
+            · simpa using hborder
+
+/-- **A child whose content box crosses the page bottom is sent to the next page** whenever something was
+already placed on this page: the first pass discards its fragment. -/
+theorem firstPass_discards_content_overflow (c : Ctx) (bs posY : Rat) (r : LayoutResult) (f : Frag)
+    (hf : r.frag = some f) (ht : r.collapsingThrough = false)
+    (ho : c.overflowsPage bs (f.geo.contentBoxY + f.geo.h) = true) :
+    firstPass c bs false posY r = .keep none posY := by
+  unfold firstPass
+  simp [hf, ht, ho]
+
+/-- **A child whose content fits but whose bottom padding / border crosses the page bottom is laid out again**
+with the bottom space enlarged by exactly that padding and border. -/
+theorem firstPass_relayout_border_overflow (c : Ctx) (bs posY : Rat) (r : LayoutResult) (f : Frag)
+    (hf : r.frag = some f) (ht : r.collapsingThrough = false)
+    (hc : c.overflowsPage bs (f.geo.contentBoxY + f.geo.h) = false)
+    (hb : c.overflowsPage bs (f.geo.borderBoxY + f.geo.borderHeight) = true) :
+    firstPass c bs false posY r = .redo (bs + (f.geo.pb + f.geo.bb)) := by
+  unfold firstPass
+  simp [hf, ht, hc, hb]
+
+/-- The exemption: as first content of an empty page, the fragment is kept whatever its size. -/
+theorem firstPass_first_content_kept (c : Ctx) (bs posY : Rat) (r : LayoutResult) (f : Frag)
+    (hf : r.frag = some f) : ∃ y, firstPass c bs true posY r = .keep (some f) y := by
+  unfold firstPass
+  simp only [hf, Bool.not_true, Bool.false_and, Bool.false_eq_true, ↓reduceIte]
+  split
+  · exact ⟨_, rfl⟩
+  · exact ⟨_, rfl⟩
+
+/-! Non-vacuity and regression document for the content-box edge (100px pages, seven 10px lines, then a block
+of `height: 30px` with `padding-top: 8px; border-top: 2px`): its border box starts at 70, its content box at 80
+and ends at 110 > 100, so the block goes to page 2 although `border_box_y + height = 100` would fit. With
+`height: 20px` the content box ends exactly at 100 and the block stays. (Boxes: id, y, content bottom.) -/
+def fixedDoc (h : Rat) : Doc :=
+  { pageH := 100, rootLtr := true,
+    root := .block 0 { plainSt with isRoot := true }
+      [.block 1 plainSt
+        [.para 2 7 10 plainSt, .block 3 { plainSt with height := some h, pt := 8, bt := 2 } [],
+         .para 4 1 10 plainSt]] }
+
+def kidsSummary (d : Doc) : Option (List (List (Nat × Rat × Rat))) :=
+  (paginate d 10).map (fun ps => ps.map (fun p =>
+    match p.root with
+    | .block _ _ _ _ [.block _ _ _ _ kids] =>
+      kids.map (fun k => ((match k with | .para id .. => id | .block id .. => id), k.geo.y,
+        k.geo.contentBoxY + k.geo.h))
+    | _ => []))
+
+example : kidsSummary (fixedDoc 30) = some [[(2, 0, 70)], [(3, 0, 40), (4, 40, 50)]] := by decide +kernel
+example : kidsSummary (fixedDoc 20) = some [[(2, 0, 70), (3, 70, 100)], [(4, 0, 10)]] := by decide +kernel
+
 end Wp.C03Geo
